@@ -84,7 +84,7 @@ theorem open_flow (w w' : World) (env : Env) (s : Nat) (f : Funds) (v : Nat) (si
   have hrun' : execSubs (39 + 1) { w1 with engine := e1 } ENGINE subs = .ok w' := hrun
   dsimp only at hpos hcfg htmp hwl hcase
   rw [a1] at hwl
-  rcases hcase with ⟨N, hm, hdir⟩ | ⟨N, hm, hdir, pn, u, hpnl, hgt⟩ | ⟨hm, hdir⟩
+  rcases hcase with ⟨N, hm, hdir⟩ | ⟨N, hm, _, hdir, pn, u, hpnl, hgt⟩ | ⟨hm, _, hdir⟩
   · -- open / increase
     subst hm
     obtain ⟨w2, ev, hx, hyes, _⟩ := execSubs_cons_ok 39 _ w' ENGINE _ [] hrun'
